@@ -19,7 +19,7 @@ STR_VARS = {
     "os_name": ["posix", "nt", "java", "pos", ""],
     "sys_platform": ["linux", "linux2", "win32", "darwin", "win", "cygwin"],
     "platform_machine": ["x86_64", "x86", "arm64", "aarch64", "AMD64", "amd64"],
-    "platform_system": ["Linux", "Windows", "Darwin", "Lin"],
+    "platform_system": ["Linux", "Windows", "Darwin", "Lin", 'Li"nux'],
     "implementation_name": ["cpython", "pypy", "python"],
     "platform_python_implementation": ["CPython", "PyPy", "Jython"],
 }
@@ -33,7 +33,7 @@ LEGACY_NAMES = {
 MINORS = ["2.7", "3.0", "3.1", "3.6", "3.7", "3.8", "3.9", "3.10", "3.11", "3.12", "3.13", "4.0"]
 MICROS = [0, 1, 2, 10]
 PYV_LITS = MINORS + ["3", "2", "4"]
-PYFV_LITS = [f"{m}.{z}" for m in ["2.7", "3.0", "3.7", "3.8", "3.9", "3.10", "3.12"] for z in MICROS] + ["3.7", "3.8", "3.9", "3.10", "2.7"]
+PYFV_LITS = [f"{m}.{z}" for m in ["2.7", "3.0", "3.7", "3.8", "3.9", "3.10", "3.12"] for z in MICROS] + ["3.7", "3.8", "3.9", "3.10", "2.7"] + ["3.9a1", "3.10.0rc1", "3.8.0b2"]
 REL_LITS = ["5.4", "5.4.0", "5.15.0", "6.0", "6.1", "10", "21.6.0", "6"]
 REL_VALUES = ["5.3", "5.4", "5.4.0", "5.4.1", "5.10.1", "5.15.0", "5.15.1", "6.0", "6.0.1", "6.1", "6.1.1", "9.9", "10", "10.0", "10.1", "21.6.0", "21.6.1", "22.0.0"]
 EXTRA_NAMES = ["foo", "bar", "Foo_Bar", "foo-bar", "baz"]
@@ -76,14 +76,15 @@ def atom(draw, classes):
         val = draw(st.sampled_from(lits))
         op = draw(st.sampled_from(CMP_OPS + ["~=", "==*", "!=*"]))
         if op in ("==*", "!=*"):
-            if val.count(".") >= 2:
-                val = ".".join(val.split(".")[:2])
+            val = re.match(r"\d+(\.\d+)?", val).group()  # release prefix only: no wildcard after a pre-release
             op, val = op[:2], val + ".*"
         elif op == "~=":
             if "." not in val:
                 val += ".0"
         else:
-            rev = draw(_choice(5)) == 0
+            # a pre-release literal on the left makes the *environment value* the specifier operand, and PEP 440's
+            # exclusion rules (<V never matches a pre-release of V) then break the mirror symmetry: not well-defined
+            rev = draw(_choice(5)) == 0 and val.replace(".", "").isdigit()
     elif k in ("A4", "A4s"):
         var = "python_version"
         vals = draw(st.lists(st.sampled_from(MINORS), min_size=1, max_size=3, unique=True))
@@ -109,6 +110,8 @@ def atom_text(a, plain=False) -> str:
     """Render. `style` picks quotes / blanks / legacy dotted name; plain=True gives the canonical spelling."""
     s = 0 if plain else a.get("style", 0)
     q = "'" if s & 1 else '"'
+    if q in a["val"]:  # a literal may contain one kind of quote: use the other one
+        q = "'" if q == '"' else '"'
     var = a["var"]
     if s == 6 and var in LEGACY_NAMES:
         var = LEGACY_NAMES[var]
@@ -249,8 +252,10 @@ def py_values(atoms) -> list[str]:
         if a["var"] not in ("python_version", "python_full_version"):
             continue
         for lit in re.split(r"[ ,]+", a["val"].replace(".*", "")):
-            if not re.fullmatch(r"\d+(\.\d+){0,2}", lit):
+            m_ = re.match(r"\d+(\.\d+){0,2}", lit)  # release part of a (possibly pre-release) literal
+            if not m_:
                 continue
+            lit = m_.group()
             t = _ver_tuple(lit) + (0, 0)
             x, y, z = t[0], t[1], t[2]
             for yy in (y - 1, y, y + 1):
